@@ -183,6 +183,32 @@ def disturb(P, mode, rule, s, i, kind):
     return held
 
 
+def py_lparse_disturbed(P, rule, s, i, full=False, kind=None):
+    """lib.py_lparse preceded by the disturbance of the case (see disturb_kind); returns (outcome, kind)"""
+    kind = kind or disturb_kind(s, i)
+    held = disturb(P, "full" if full else "ends", rule, s, i, kind)
+    py = lib.py_lparse(P, rule, s, i, full=full)
+    undisturb(held)
+    return py, kind
+
+
+def accept_disturbed(P, rule, s, kind=None):
+    """parse_all verdict (True / False / 'gerr' / 'exc:...') preceded by the disturbance of the case"""
+    kind = kind or disturb_kind(s, 0)
+    held = disturb(P, "parse", rule, s, 0, kind)
+    try:
+        rule.parse_all(s)
+        out = True
+    except P.ParseError:
+        out = False
+    except P.GrammarError:
+        out = "gerr"
+    except Exception as e:  # noqa
+        out = "exc:" + type(e).__name__
+    undisturb(held)
+    return out
+
+
 def undisturb(held):
     for g in held or []:
         try:
